@@ -27,6 +27,8 @@ EXECS=$(grep -h "^Done " "$LOG".* 2>/dev/null | awk '{s+=$2} END {print s+0}')
 echo "fuzz target=$TARGET executions=$EXECS workers=$JOBS seed=$SEED max_len=$MAXLEN"
 for a in "$RUN"/artifacts/*; do
   [ -f "$a" ] || continue
+  # libFuzzer's slow-unit-* files report units that took long on this machine at that moment: not failures
+  case "$(basename "$a")" in slow-unit-*) continue;; esac
   keep="$ROOT/evidence/replay/fuzz-$TARGET-$(basename "$a")"
   mkdir -p "$ROOT/evidence/replay"; cp "$a" "$keep"
   echo "FUZZ-CRASH $keep"
